@@ -41,7 +41,7 @@ func init() {
 			}
 			gombokrun.Post(gombokrun.ModeJSON)(pc)
 		}
-		r.Rule += "; @fp.Json structs: scenario json-structs, leaf = one scratch package of up to " + fmt.Sprint(size) + " struct shapes of the C07 grammar (one-field over kind x visibility, json tag variants, field counts, generic constraint forms, grouped fields, every embedded form next to an ordinary field in both positions, three-field mixed structs; thorough: two-field structs), " +
+		r.Rule += "; @fp.Json structs: scenario json-structs, leaf = one scratch package of up to " + fmt.Sprint(size) + " struct shapes of the C07 grammar (one-field over kind x visibility, json tag variants, field counts, generic constraint forms, grouped fields, every embedded form next to an ordinary field in both positions, three-field mixed structs, structs that declare one of the generated members by hand (incl. MarshalJSON, UnmarshalJSON, both); thorough: two-field structs), " +
 			"declarations -> gombok from the tree under test -> go build with a generated law test -> run; for every struct all combinations of two faithful values per field: Marshal(x) = Marshal(x.AsMutable()) = Marshal(public twin with the documented tags) byte for byte, " +
 			"Unmarshal(Marshal(x)) = x on the encoded fields (json.Unmarshal and UnmarshalJSON called directly), a fixed list of malformed documents plus ill-typed values for every field never panic and leave a preloaded target unchanged on error; states = structs, transitions = law evaluations"
 		r.Assumptions = append(r.Assumptions,
@@ -59,7 +59,7 @@ func init() {
 		r.Extra["uncovered"] = []string{
 			"fp.Either: it has MarshalJSON only (no UnmarshalJSON) and is not named in the statement",
 			"@fp.Json structs: arbitrary byte strings are enumerated exhaustively only for the Option/Unit/hand-written struct targets; generated structs get a fixed list of 18 malformed documents plus 12 ill-typed documents per field",
-			"@fp.Json structs with a user-written MarshalJSON/Mutable type, and @fp.JsonTag",
+			"@fp.Json structs with a user-written Mutable type (it carries no json tags), and @fp.JsonTag",
 		}
 	})
 }
